@@ -232,7 +232,7 @@ def _xv(gname, scheds, wd, cpath, gstats, t0, rand=None, trace=("Trace_Yata", "T
     return res
 
 
-def run_random(ix, tier, workdir, engine="yata", ext=(), gc_off=False, trace=("Trace_Yata", "Trace_Yata.cfg"), behaviours=None, ops=None):
+def run_random(ix, tier, workdir, engine="yata", ext=(), gc_off=False, trace=("Trace_Yata", "Trace_Yata.cfg"), behaviours=None, ops=None, wide=0):
     seed = vlib.seed()
     gname = "rand%03d" % ix
     cpath = _cache_path(vlib.tree_hash(), engine, gname, tier, seed)
@@ -247,6 +247,8 @@ def run_random(ix, tier, workdir, engine="yata", ext=(), gc_off=False, trace=("T
     t0 = time.time()
     rand = ["--seed", str(_h(seed, ix, engine) % (1 << 31)), "--behaviours", str(behaviours or (150 if tier == "quick" else 400)),
             "--ops", str(ops or (12 if ix % 2 == 0 else 40)), "--ext", ",".join(ext), "--gc-off", "1" if gc_off else "0"]
+    if wide:
+        rand += ["--wide", str(wide)]  # every wide-th behaviour: characters outside the BMP in the texts
     return _xv(gname, None, wd, cpath, None, t0, rand=rand, trace=trace, engine=engine)
 
 
